@@ -7,6 +7,7 @@ import Edn.Proofs.NumberSound
 import Edn.Proofs.IdentSound
 import Edn.Proofs.Sound
 import Edn.Proofs.CharSound
+import Edn.Proofs.RejectDoc
 
 namespace Edn.Properties.C10
 open Edn.Model Edn.Proofs
@@ -140,5 +141,212 @@ theorem character_errors (ctx : Ctx) (st st' : St) (e : ErrInfo) (h : readCharac
 example : (match (read Cfg.core {} "[1 2".toUTF8.toList).out with | .error c _ _ => c == .unterminatedCollection | _ => false) = true := by decide +kernel
 example : (match (read Cfg.core {} "{:a}".toUTF8.toList).out with | .error c _ _ => c == .invalidSyntax | _ => false) = true := by decide +kernel
 example : (match (read Cfg.core {} ")".toUTF8.toList).out with | .error c _ _ => c == .unmatchedDelimiter | _ => false) = true := by decide +kernel
+
+/-! ## Whole documents: the error class of every defect family
+
+  Core configuration, no reader registry.  The statements are about the bytes of the input:
+  `Forms k n body after` (n complete forms of the grammar `Edn.Spec.Form`), `Edn.Spec.Trail`
+  (blanks, comments, discarded forms), `Desc s c 0 false pre d dm` (`pre` is a well-formed *open
+  context* - blanks, discarded forms, open tags / discard markers, and open collections holding
+  complete forms - after which a form is expected at depth `d`), `EofSite` (only blanks and
+  comments are left), `TopTrivia` (the inputs holding no form at all); see
+  `Edn.Proofs.RejectDocAux1/4/5`.  `posOf input off` is the position (offset, line, column)
+  `edn_read` reports for the byte offset `off`.  Each theorem is instantiated on a concrete
+  document beside its proof in `Edn.Proofs.RejectDoc`. -/
+
+section Documents
+open Edn.Spec Edn.Proofs.Cmpl Edn.Proofs.RejectDoc
+
+/-- **Nothing outside the grammar is accepted, and it is an error**: an input no prefix of which is
+    a form within the nesting limit yields an error with a code other than OK, or - only when the
+    caller supplied an end-of-input value and the input holds no form at all - that value -/
+theorem document_outside_grammar_rejected (opts : Opts) (hreg : opts.registry = none) (input : Bytes)
+    (hnot : ¬ ∃ k a tok rest, k ≤ Edn.Generated.Tables.maxNestingDepth ∧ input = tok ++ rest ∧ Form k a tok rest) :
+    (∃ code es ee, (read Cfg.core opts input).out = .error code es ee ∧ code ≠ .ok) ∨
+    ((read Cfg.core opts input).out = .eofValue ∧ opts.eofValue = true ∧ TopTrivia input) :=
+  core_not_in_grammar_rejected opts hreg input hnot
+
+/-- **The first defect decides the class**: whatever error the reader raises right after a
+    well-formed open context is the error of the whole document, code and range (every error through
+    tags and discard markers; every error but UNEXPECTED_EOF - which the innermost collection turns
+    into UNTERMINATED_COLLECTION - through open collections) -/
+theorem first_defect_decides_the_class (opts : Opts) (hreg : opts.registry = none) {s : Bytes} {c : Bool} {pre : Bytes}
+    {d : Nat} {dm : Bool} (h : Desc s c 0 false pre d dm) (e : ErrInfo) (r : Bytes)
+    (hs : SiteErr opts d dm s e r) (hc : c = false ∨ e.code ≠ .unexpectedEof) (hf : e.fuelOut = false)
+    (hn : (e.code == .unexpectedEof && e.eofTop && opts.eofValue) = false) :
+    (read Cfg.core opts (pre ++ s)).out =
+      .error e.code (posOf (pre ++ s) ((pre ++ s).length - e.es.getD r.length))
+        (posOf (pre ++ s) ((pre ++ s).length - e.ee.getD r.length)) :=
+  first_defect_decides opts hreg h e r hs hc hf hn
+
+/-- end of input where a top-level form is expected: with an end-of-input value supplied the
+    reader returns it **iff** the input consists of blanks, comments (the last one possibly
+    unclosed) and complete discarded forms only (`TopTrivia`) … -/
+theorem end_of_input_value_iff_no_form (opts : Opts) (hreg : opts.registry = none) (hev : opts.eofValue = true) (input : Bytes) :
+    (read Cfg.core opts input).out = .eofValue ↔ TopTrivia input :=
+  eof_iff_trivia_only opts hreg hev input
+
+/-- … and without one such an input is UNEXPECTED_EOF at the end of the input -/
+theorem no_form_is_unexpected_eof (opts : Opts) (hreg : opts.registry = none) (hev : opts.eofValue = false) (input : Bytes)
+    (h : TopTrivia input) :
+    (read Cfg.core opts input).out = .error .unexpectedEof (posOf input input.length) (posOf input input.length) :=
+  trivia_only_eof_error opts hreg hev input h
+
+/-- the whitespace skipper runs to the end of the input exactly on blanks and comments, the last
+    comment possibly unclosed (the base case of `TopTrivia`) -/
+theorem blank_to_the_end_iff (s : Bytes) : skipWsScalar s = [] ↔ EofBlank s :=
+  skipWsScalar_nil_iff s
+
+/-- a closing delimiter where a top-level form is expected (after blanks, comments and discarded
+    forms): UNMATCHED_DELIMITER at that delimiter -/
+theorem stray_closing_delimiter_document (opts : Opts) (hreg : opts.registry = none) (k : Nat) (tr : Bytes) (c : UInt8)
+    (rest : Bytes) (hk : k ≤ Edn.Generated.Tables.maxNestingDepth) (ht : Trail k tr (c :: rest)) (hc : IsCloser c) :
+    (read Cfg.core opts (tr ++ c :: rest)).out =
+      .error .unmatchedDelimiter (posOf (tr ++ c :: rest) tr.length) (posOf (tr ++ c :: rest) tr.length) :=
+  stray_closer_doc opts hreg k tr c rest hk ht hc
+
+/-- the input ends inside a collection (after complete forms, possibly behind open tags or discard
+    markers): UNTERMINATED_COLLECTION from the opening delimiter of the **innermost** open collection
+    to the end of the input -/
+theorem input_ends_in_collection_document (opts : Opts) (hreg : opts.registry = none) {c0 : Bool} {pre : Bytes} {d : Nat} {dm : Bool}
+    (kind k n : Nat) (body pre2 s2 : Bytes) (d2 : Nat) (dm2 : Bool)
+    (hctx : Desc (opener kind ++ (body ++ (pre2 ++ s2))) c0 0 false pre d dm)
+    (hd : d + 1 + k ≤ Edn.Generated.Tables.maxNestingDepth) (hb : Forms k n body (pre2 ++ s2))
+    (hflat : Desc s2 false (d + 1) dm pre2 d2 dm2) (hs : EofSite s2) :
+    (read Cfg.core opts (pre ++ (opener kind ++ (body ++ (pre2 ++ s2))))).out =
+      .error .unterminatedCollection (posOf (pre ++ (opener kind ++ (body ++ (pre2 ++ s2)))) pre.length)
+        (posOf (pre ++ (opener kind ++ (body ++ (pre2 ++ s2)))) (pre ++ (opener kind ++ (body ++ (pre2 ++ s2)))).length) :=
+  unterminated_collection opts hreg kind k n body pre2 s2 d2 dm2 hctx hd hb hflat hs
+
+/-- a list, vector or set closed by the wrong delimiter: UNMATCHED_DELIMITER from its opening
+    delimiter to just after the closing one -/
+theorem wrong_closing_delimiter_document (opts : Opts) (hreg : opts.registry = none) {c0 : Bool} {pre : Bytes} {d : Nat} {dm : Bool}
+    (kind k n : Nat) (body tr : Bytes) (c : UInt8) (rest : Bytes)
+    (hctx : Desc (opener kind ++ (body ++ (tr ++ c :: rest))) c0 0 false pre d dm) (hkind : kind < 3)
+    (hd : d + 1 + k ≤ Edn.Generated.Tables.maxNestingDepth) (hb : Forms k n body (tr ++ c :: rest))
+    (ht : Trail k tr (c :: rest)) (hc : IsCloser c) (hne : c ≠ closerByte kind) :
+    (read Cfg.core opts (pre ++ (opener kind ++ (body ++ (tr ++ c :: rest))))).out =
+      .error .unmatchedDelimiter (posOf (pre ++ (opener kind ++ (body ++ (tr ++ c :: rest)))) pre.length)
+        (posOf (pre ++ (opener kind ++ (body ++ (tr ++ c :: rest))))
+          ((pre ++ (opener kind ++ (body ++ (tr ++ c :: rest)))).length - rest.length)) :=
+  mismatched_closer opts hreg kind k n body tr c rest hctx hkind hd hb ht hc hne
+
+/-- … a map with an even number of forms closed by `)` or `]` -/
+theorem wrong_closing_delimiter_of_map_document (opts : Opts) (hreg : opts.registry = none) {c0 : Bool} {pre : Bytes} {d : Nat} {dm : Bool}
+    (k m : Nat) (body tr : Bytes) (c : UInt8) (rest : Bytes)
+    (hctx : Desc (opener 3 ++ (body ++ (tr ++ c :: rest))) c0 0 false pre d dm)
+    (hd : d + 1 + k ≤ Edn.Generated.Tables.maxNestingDepth) (hb : Forms k (2 * m) body (tr ++ c :: rest))
+    (ht : Trail k tr (c :: rest)) (hc : IsCloser c) (hne : c ≠ 0x7D) :
+    (read Cfg.core opts (pre ++ (opener 3 ++ (body ++ (tr ++ c :: rest))))).out =
+      .error .unmatchedDelimiter (posOf (pre ++ (opener 3 ++ (body ++ (tr ++ c :: rest)))) pre.length)
+        (posOf (pre ++ (opener 3 ++ (body ++ (tr ++ c :: rest))))
+          ((pre ++ (opener 3 ++ (body ++ (tr ++ c :: rest)))).length - rest.length)) :=
+  mismatched_closer_map opts hreg k m body tr c rest hctx hd hb ht hc hne
+
+/-- a map with an odd number of forms (closed by any closing delimiter): INVALID_SYNTAX from the
+    opening brace to the closing delimiter -/
+theorem odd_number_of_map_forms_document (opts : Opts) (hreg : opts.registry = none) {c0 : Bool} {pre : Bytes} {d : Nat} {dm : Bool}
+    (k m : Nat) (body tr : Bytes) (c : UInt8) (rest : Bytes)
+    (hctx : Desc (opener 3 ++ (body ++ (tr ++ c :: rest))) c0 0 false pre d dm)
+    (hd : d + 1 + k ≤ Edn.Generated.Tables.maxNestingDepth) (hb : Forms k (2 * m + 1) body (tr ++ c :: rest))
+    (ht : Trail k tr (c :: rest)) (hc : IsCloser c) :
+    (read Cfg.core opts (pre ++ (opener 3 ++ (body ++ (tr ++ c :: rest))))).out =
+      .error .invalidSyntax (posOf (pre ++ (opener 3 ++ (body ++ (tr ++ c :: rest)))) pre.length)
+        (posOf (pre ++ (opener 3 ++ (body ++ (tr ++ c :: rest))))
+          ((pre ++ (opener 3 ++ (body ++ (tr ++ c :: rest)))).length - (rest.length + 1))) :=
+  odd_map_doc opts hreg k m body tr c rest hctx hd hb ht hc
+
+/-- a tag with nothing to apply to before a closing delimiter: INVALID_SYNTAX from the `#` to the
+    closing delimiter -/
+theorem tag_without_form_document (opts : Opts) (hreg : opts.registry = none) {c0 : Bool} {pre : Bytes} {d : Nat} {dm : Bool}
+    (tg : Bytes) (ns : Option Bytes) (nm : Bytes) (k : Nat) (tr : Bytes) (c : UInt8) (rest : Bytes)
+    (hctx : Desc (0x23 :: (tg ++ (tr ++ c :: rest))) c0 0 false pre d dm)
+    (hd : d + 1 + k ≤ Edn.Generated.Tables.maxNestingDepth) (hl : IdentLex tg) (hden : IdentDenotes tg (.sym hdr0 none ns nm))
+    (hu : tg.head? ≠ some 0x5F) (ht : Trail k tr (c :: rest)) (hc : IsCloser c) :
+    (read Cfg.core opts (pre ++ 0x23 :: (tg ++ (tr ++ c :: rest)))).out =
+      .error .invalidSyntax (posOf (pre ++ 0x23 :: (tg ++ (tr ++ c :: rest))) pre.length)
+        (posOf (pre ++ 0x23 :: (tg ++ (tr ++ c :: rest)))
+          ((pre ++ 0x23 :: (tg ++ (tr ++ c :: rest))).length - (rest.length + 1))) :=
+  orphan_tag_closer opts hreg tg ns nm k tr c rest hctx hd hl hden hu ht hc
+
+/-- a discard marker with nothing to discard before a closing delimiter: INVALID_DISCARD on the two
+    bytes of the marker -/
+theorem discard_without_form_document (opts : Opts) (hreg : opts.registry = none) {c0 : Bool} {pre : Bytes} {d : Nat} {dm : Bool}
+    (k : Nat) (tr : Bytes) (c : UInt8) (rest : Bytes)
+    (hctx : Desc (0x23 :: 0x5F :: (tr ++ c :: rest)) c0 0 false pre d dm)
+    (hd : d + 1 + k ≤ Edn.Generated.Tables.maxNestingDepth) (ht : Trail k tr (c :: rest)) (hc : IsCloser c) :
+    (read Cfg.core opts (pre ++ 0x23 :: 0x5F :: (tr ++ c :: rest))).out =
+      .error .invalidDiscard (posOf (pre ++ 0x23 :: 0x5F :: (tr ++ c :: rest)) pre.length)
+        (posOf (pre ++ 0x23 :: 0x5F :: (tr ++ c :: rest)) (pre.length + 2)) :=
+  orphan_discard_closer opts hreg k tr c rest hctx hd ht hc
+
+/-- a tag or discard marker outside every collection whose form never comes (or a lone `#` at the
+    end): UNEXPECTED_EOF at the end of the input - an error even when an end-of-input value was
+    supplied.  (Inside a collection the same input is `input_ends_in_collection_document`.) -/
+theorem tag_or_discard_at_end_document (opts : Opts) (hreg : opts.registry = none) {pre s : Bytes} {d : Nat} {dm : Bool}
+    (hctx : Desc s false 0 false pre d dm) (hs : EofSite s) (hopen : 0 < d ∨ skipWsScalar s ≠ []) :
+    ∃ es ee, (read Cfg.core opts (pre ++ s)).out = .error .unexpectedEof es ee ∧
+      (pre ++ s).length - 1 ≤ es.offset ∧ ee.offset = (pre ++ s).length :=
+  orphan_at_eof opts hreg hctx hs hopen
+
+/-- an identifier-like token that is not a well-formed identifier, anywhere a form is expected
+    after a well-formed context: INVALID_SYNTAX from the token's first byte -/
+theorem invalid_identifier_document (opts : Opts) (hreg : opts.registry = none) {c0 : Bool} {pre : Bytes} {d : Nat} {dm : Bool}
+    (tok rest : Bytes) (hctx : Desc (tok ++ rest) c0 0 false pre d dm)
+    (hne : tok ≠ []) (hnd : ∀ c ∈ tok, isDelim c = false) (hs : IdentStart tok) (hr : DelimStart rest)
+    (hbad : ¬ (IdentLex tok ∧ ∃ a, IdentDenotes tok a)) :
+    ∃ ee, (read Cfg.core opts (pre ++ (tok ++ rest))).out =
+      .error .invalidSyntax (posOf (pre ++ (tok ++ rest)) pre.length) ee :=
+  bad_identifier_token opts hreg tok rest hctx hne hnd hs hr hbad
+
+/-- a number-like text (a digit, or a sign and a digit, first) no prefix of which is a number token
+    of the core grammar followed by a terminator: INVALID_NUMBER from its first byte -/
+theorem invalid_number_document (opts : Opts) (hreg : opts.registry = none) {c0 : Bool} {pre : Bytes} {d : Nat} {dm : Bool}
+    (s : Bytes) (hctx : Desc s c0 0 false pre d dm)
+    (hstart : ∃ c t, s = c :: t ∧ (is09 c = true ∨ ((c = 0x2B ∨ c = 0x2D) ∧ ∃ nx t', t = nx :: t' ∧ is09 nx = true)))
+    (hnot : ¬ ∃ tok rest v, s = tok ++ rest ∧ CoreNum Cfg.core tok v ∧ TermStart rest) :
+    ∃ ee, (read Cfg.core opts (pre ++ s)).out = .error .invalidNumber (posOf (pre ++ s) pre.length) ee :=
+  bad_number_token opts hreg s hctx hstart hnot
+
+/-- a string literal that is never closed: INVALID_STRING from the opening quote to the end of the input -/
+theorem unterminated_string_document (opts : Opts) (hreg : opts.registry = none) {c0 : Bool} {pre : Bytes} {d : Nat} {dm : Bool}
+    (cs : Bytes) (hctx : Desc (0x22 :: cs) c0 0 false pre d dm)
+    (hnot : ¬ ∃ sp rest, cs = sp ++ 0x22 :: rest ∧ RawStr sp) :
+    (read Cfg.core opts (pre ++ 0x22 :: cs)).out =
+      .error .invalidString (posOf (pre ++ 0x22 :: cs) pre.length) (posOf (pre ++ 0x22 :: cs) (pre ++ 0x22 :: cs).length) :=
+  unterminated_string opts hreg cs hctx hnot
+
+/-- a backslash that no character token (followed by a delimiter or the end) follows:
+    INVALID_CHARACTER from the backslash -/
+theorem invalid_character_document (opts : Opts) (hreg : opts.registry = none) {c0 : Bool} {pre : Bytes} {d : Nat} {dm : Bool}
+    (cs : Bytes) (hctx : Desc (0x5C :: cs) c0 0 false pre d dm)
+    (hnot : ¬ ∃ body rest cp, cs = body ++ rest ∧ CharTok body cp ∧ cp ≤ 0x10FFFF ∧ DelimStart rest) :
+    ∃ ee, (read Cfg.core opts (pre ++ 0x5C :: cs)).out = .error .invalidCharacter (posOf (pre ++ 0x5C :: cs) pre.length) ee :=
+  bad_character_token opts hreg cs hctx hnot
+
+end Documents
+
+/-- concrete documents: code, start offset and end offset of the reported error -/
+def errIs (r : Result) (code : Err) (so eo : Nat) : Bool :=
+  match r.out with
+  | .error c es ee => c == code && es.offset == so && ee.offset == eo
+  | _ => false
+
+example : errIs (read Cfg.core {} "[1 2".toUTF8.toList) .unterminatedCollection 0 4 = true := by decide +kernel
+example : errIs (read Cfg.core {} "[1 (2 3".toUTF8.toList) .unterminatedCollection 3 7 = true := by decide +kernel
+example : errIs (read Cfg.core {} "[1 #foo #_".toUTF8.toList) .unterminatedCollection 0 10 = true := by decide +kernel
+example : errIs (read Cfg.core {} "{:a}".toUTF8.toList) .invalidSyntax 0 3 = true := by decide +kernel
+example : errIs (read Cfg.core {} "{:a 1 :b]".toUTF8.toList) .invalidSyntax 0 8 = true := by decide +kernel
+example : errIs (read Cfg.core {} "[1 2)".toUTF8.toList) .unmatchedDelimiter 0 5 = true := by decide +kernel
+example : errIs (read Cfg.core {} " ;c\n )".toUTF8.toList) .unmatchedDelimiter 5 5 = true := by decide +kernel
+example : errIs (read Cfg.core {} "#_".toUTF8.toList) .unexpectedEof 2 2 = true := by decide +kernel
+example : errIs (read Cfg.core { eofValue := true } "#_".toUTF8.toList) .unexpectedEof 2 2 = true := by decide +kernel
+example : errIs (read Cfg.core {} "[#_]".toUTF8.toList) .invalidDiscard 1 3 = true := by decide +kernel
+example : errIs (read Cfg.core {} "[#foo]".toUTF8.toList) .invalidSyntax 1 5 = true := by decide +kernel
+example : errIs (read Cfg.core {} "1x".toUTF8.toList) .invalidNumber 0 1 = true := by decide +kernel
+example : errIs (read Cfg.core {} "[a::b]".toUTF8.toList) .invalidSyntax 1 1 = true := by decide +kernel
+example : errIs (read Cfg.core {} "  ; c".toUTF8.toList) .unexpectedEof 5 5 = true := by decide +kernel
+example : (match (read Cfg.core { eofValue := true } "  ; c".toUTF8.toList).out with | .eofValue => true | _ => false) = true := by decide +kernel
+example : (match (read Cfg.core { eofValue := true } "#_ 1 ; c".toUTF8.toList).out with | .eofValue => true | _ => false) = true := by decide +kernel
 
 end Edn.Properties.C10
